@@ -32,8 +32,8 @@ def expected_flags(p, disk):
     for c in p.chunks:
         a = p.header_len + c["start"]
         b = a + c["comp_len"]
-        if c["number"] == 0 and c["len"] == 0:
-            fl.append(1)  # empty dictionary: nothing to check
+        if c["number"] == 0 and c["comp_len"] == 0:
+            fl.append(1)  # no dictionary: nothing stored, nothing to check (a first entry WITH stored bytes - e.g. the zstd frame of nothing - is a chunk like any other)
             continue
         if b > len(disk):
             fl.append(-1)
@@ -417,7 +417,7 @@ class C09(core.Check):
             bases.append({"name": "repeated-chunk-c%d" % comp_, "data": d_, "content": b"".join(pcs_), "repeats": [1, 3, 5]})
         # files of another writer (reference writer): unused bytes behind the signatures, optional header elements
         for rb_ in basefiles.ref_set(self.seed + 9, 6 if self.quick else 16):
-            if "hdrtail" in rb_["name"] or "optelems" in rb_["name"] or not self.quick:
+            if "hdrtail" in rb_["name"] or "optelems" in rb_["name"] or "emptydictframe" in rb_["name"] or not self.quick:
                 bases.append(rb_)
         words_long = all_words(2 if self.quick else 3)
         out = []
